@@ -158,7 +158,9 @@ func c13Literals(c *Case) {
 		c.Count("literal_forms")
 		m2(c, &M2Case{Prog: p, Text: text, Desc: "literal form " + key})
 	}
-	begin := func(st ...Stmt) *Program { return &Program{Items: []any{&Rule{Kind: "BEGIN", Body: &Block{Stmts: st}}}} }
+	begin := func(st ...Stmt) *Program {
+		return &Program{Items: []any{&Rule{Kind: "BEGIN", Body: &Block{Stmts: st}}}}
+	}
 	// every byte 0x20-0xFF inside either quote style
 	for b := 0x20; b <= 0xff; b++ {
 		if b == '\\' {
@@ -282,7 +284,7 @@ func c13Cases(tier string) int {
 func init() {
 	register(&Prop{
 		ID: "C13", Level: "exploration",
-		Rule: "metamorphic: a generated program (structured programs and function programs, as token sequences) is run in the canonical layout (one space between tokens, one statement per line, single quotes) and in 6 (thorough 12) random layouts of the same tokens: between tokens nothing (where a table says they cannot fuse) / spaces / tabs / CR / comment+newline / newlines, except no newline after print/return, after a print-list comma or before ';'; statement-separating newlines replaced by ';' unless the statement ends in '}'; either quote style. stdout and outcome must be identical. Enumerated: every adjacent token pair of a two-program corpus using all operators and keywords written without a space, one gap at a time and all at once; literal slice vs the model: every byte 0x20-0xFF in both quote styles, the three escapes and 10 non-escapes (error only when evaluated), number spellings incl. 30 digits and leading zeros, 126 identifiers built from keywords. Non-trivial = layout differing from canonical in >= 3 gaps incl. a newline, comment or removed space; distinct by text.",
+		Rule:     "metamorphic: a generated program (structured programs and function programs, as token sequences) is run in the canonical layout (one space between tokens, one statement per line, single quotes) and in 6 (thorough 12) random layouts of the same tokens: between tokens nothing (where a table says they cannot fuse) / spaces / tabs / CR / comment+newline / newlines, except no newline after print/return, after a print-list comma or before ';'; statement-separating newlines replaced by ';' unless the statement ends in '}'; either quote style. stdout and outcome must be identical. Enumerated: every adjacent token pair of a two-program corpus using all operators and keywords written without a space, one gap at a time and all at once; literal slice vs the model: every byte 0x20-0xFF in both quote styles, the three escapes and 10 non-escapes (error only when evaluated), number spellings incl. 30 digits and leading zeros, 126 identifiers built from keywords. Non-trivial = layout differing from canonical in >= 3 gaps incl. a newline, comment or removed space; distinct by text.",
 		NumCases: c13Cases,
 		Run: func(c *Case) {
 			switch c.Idx {
